@@ -297,9 +297,12 @@ def run(tier):
     for f in res.failures:
         if f.get('harness_error'):
             continue
-        fails = sum(1 for _ in range(3) if replay_case(f['case']))
+        reasons = [replay_case(f['case']) for _ in range(3)]
+        fails = sum(1 for r_ in reasons if r_)
         if fails == 3:
-            ck.violation(f['case'], f['why'])
+            # report what the saved case shows on replay (while shrinking, the search may have moved to a different reason)
+            why_now = reasons[-1] if isinstance(reasons[-1], str) else f['why']
+            ck.violation(f['case'], why_now)
         else:
             ck.res.notes.append("FLAKY %d/3: %s" % (fails, f['why'][:200]))
     for sig, cnt in res.known_hits.items():
